@@ -99,36 +99,68 @@ def execValidate (times : Nat) (args : List String) : String :=
       return " ".intercalate out.toList
   | _ => "bad-op"
 
-def parseGate (args : List String) : Option (Nat × VArgs × List Message) :=
+/-- tokens of a gate line after the header: a message, `seq` (the sequence is completed: the next `Encode` of the same
+Encoder / `StreamEncoder.SequenceCompleted`), `reset` (`Encoder.Reset` / `StreamEncoder.Reset` with the same options, the same
+validator object included) -/
+inductive GTok where
+  | msg (m : Message)
+  | seq
+  | reset
+
+def parseGTok (s : String) : Option GTok :=
+  if s == "seq" then some .seq else if s == "reset" then some .reset else (parseMessage s).map .msg
+
+/-- the sequences of a gate line: maximal runs of messages between `seq` / `reset`; a line whose first token is not a
+message, or with two separators in a row, or ending in a separator other than one final `seq`, is not an operation -/
+def splitSeqs (toks : List GTok) : Option (List (List Message × Option GTok)) :=
+  let rec go (cur : List Message) (acc : List (List Message × Option GTok)) : List GTok → Option (List (List Message × Option GTok))
+    | [] => if cur.isEmpty then some acc.reverse else some ((cur.reverse, none) :: acc).reverse
+    | .msg m :: ts => go (m :: cur) acc ts
+    | sep :: ts => if cur.isEmpty then none else go [] ((cur.reverse, some sep) :: acc) ts
+  go [] [] toks
+
+def parseGate (args : List String) : Option (Nat × VArgs × List (List Message × Option GTok)) :=
   match args with
   | v :: h :: a :: b :: c :: toks => do
     let opt ← kvByte [v] "v"
     let hdr ← kvByte [h] "h"
     let ver := selectVersion opt hdr
     let va ← parseVArgs a b c
-    let ms ← toks.mapM parseMessage
-    some (ver, va, ms)
+    let ts ← toks.mapM parseGTok
+    let seqs ← splitSeqs ts
+    if seqs.isEmpty then none
+    some (ver, va, seqs)
   | _ => none
 
+def sepName : Option GTok → List String
+  | some .seq => ["seq"]
+  | some .reset => ["reset"]
+  | _ => []
+
+/-- one `Encode` per sequence on the same encoder: every sequence is judged from a FRESH validator state (`gateBatch` starts
+from `{}`): that is what `validateMessages` / `reset` must guarantee -/
 def execEncGate (args : List String) : String :=
   match parseGate args with
-  | some (ver, va, ms) =>
-    if ms.isEmpty then "bad-op" else
-    match gateBatch va.D ver va.o ms with
-    | .panic => "panic"
-    | .err e => errName e
-    | .ok ms' => "ok:" ++ ",".intercalate (ms'.map printMessage)
+  | some (ver, va, seqs) =>
+    " ".intercalate (seqs.map fun (ms, _) =>
+      match gateBatch va.D ver va.o ms with
+      | .panic => "panic"
+      | .err e => errName e
+      | .ok ms' => "ok:" ++ ",".intercalate (ms'.map printMessage))
   | none => "bad-op"
 
+/-- `WriteMessage` per message; `SequenceCompleted` / `Reset` start the next sequence with a fresh validator state -/
 def execStreamGate (args : List String) : String :=
   match parseGate args with
-  | some (ver, va, ms) => Id.run do
-    let mut st : State := {}
+  | some (ver, va, seqs) => Id.run do
     let mut out : Array String := #[]
-    for m in ms do
-      let (r, st') := gateStream va.D ver va.o st m
-      st := st'
-      out := out.push (match r with | .panic => "panic" | .err e => errName e | .ok m' => "ok:" ++ printMessage m')
+    for (ms, sep) in seqs do
+      let mut st : State := {}
+      for m in ms do
+        let (r, st') := gateStream va.D ver va.o st m
+        st := st'
+        out := out.push (match r with | .panic => "panic" | .err e => errName e | .ok m' => "ok:" ++ printMessage m')
+      for t in sepName sep do out := out.push t
     return " ".intercalate out.toList
   | none => "bad-op"
 
@@ -196,36 +228,44 @@ def propValidate (times : Nat) (args : List String) (impl : String) : String :=
 
 def propStreamGate (args : List String) (impl : String) : String :=
   match parseGate args with
-  | some (ver, va, ms) => Id.run do
+  | some (ver, va, seqs) => Id.run do
     let answers := (impl.splitOn " ").filter (· ≠ "")
-    let mut st : State := {}
     let mut k := 0
-    for m in ms do
-      let got := answers.getD k ""
-      k := k + 1
-      let expected := if protoOk ver m then specValidate va.D va.o st m else none
-      if let some why := judge expected got then return "fail:" ++ why
-      st := (gateStream va.D ver va.o st m).2
+    for (ms, sep) in seqs do
+      let mut st : State := {}      -- every sequence starts from a fresh validator (what SequenceCompleted / Reset guarantee)
+      for m in ms do
+        let got := answers.getD k ""
+        k := k + 1
+        let expected := if protoOk ver m then specValidate va.D va.o st m else none
+        if let some why := judge expected got then return "fail:" ++ why
+        st := (gateStream va.D ver va.o st m).2
+      for t in sepName sep do
+        if answers.getD k "" != t then return "fail:sequence-not-completed"
+        k := k + 1
     return "ok"
   | none => "n/a"
 
 def propEncGate (args : List String) (impl : String) : String :=
   match parseGate args with
-  | some (ver, va, ms) => Id.run do
-    if impl == "panic" then return "fail:panic-instead-of-error"
-    let mut st : State := {}
-    let mut outs : Array String := #[]
-    let mut writable := ms.all (protoOk ver)
-    for m in ms do
-      match specValidate va.D va.o st m with
-      | none => writable := false; break
-      | some m' =>
-        outs := outs.push (printMessage m')
-        st := (validate va.D va.o st m).2
-    if writable then
-      if impl == "ok:" ++ ",".intercalate outs.toList then "ok"
-      else if impl.startsWith "err:" then "fail:writable-messages-rejected" else "fail:written-messages-differ-from-filter-of-input"
-    else if impl.startsWith "err:" then "ok" else "fail:unwritable-messages-accepted"
+  | some (ver, va, seqs) => Id.run do
+    let answers := (impl.splitOn " ").filter (· ≠ "")
+    if answers.length != seqs.length then return (if impl == "panic" then "fail:panic-instead-of-error" else "fail:answer")
+    for ((ms, _), got) in seqs.zip answers do
+      if got == "panic" then return "fail:panic-instead-of-error"
+      let mut st : State := {}
+      let mut outs : Array String := #[]
+      let mut writable := ms.all (protoOk ver)
+      for m in ms do
+        match specValidate va.D va.o st m with
+        | none => writable := false; break
+        | some m' =>
+          outs := outs.push (printMessage m')
+          st := (validate va.D va.o st m).2
+      if writable then
+        if got == "ok:" ++ ",".intercalate outs.toList then pure ()
+        else if got.startsWith "err:" then return "fail:writable-messages-rejected" else return "fail:written-messages-differ-from-filter-of-input"
+      else if got.startsWith "err:" then pure () else return "fail:unwritable-messages-accepted"
+    return "ok"
   | none => "n/a"
 
 def propPValidate (args : List String) (impl : String) : String :=
